@@ -53,3 +53,26 @@ Print Assumptions c09_value_untouched.
 Theorem c09_batch_value_untouched : forall st p cs, st_db (fst (batch_actuate st p cs)) = st_db st.
 Proof. exact batch_db. Qed.
 Print Assumptions c09_batch_value_untouched.
+
+(* ---------- through kuksa.val.v2 OpenProviderStream (Model/Api.v) ---------- *)
+From KD Require Model.Api Proofs.Api.
+
+(* a claim through the stream is the core claim of the named ids followed by the resolved paths *)
+Theorem c09_stream_claim_is_core : forall st p l st' h,
+  Api.v2_provide st p l = (st', inl h) ->
+  exists ids, Api.resolve_paths (st_db st) (Api.sig_paths l) = Some ids /\
+              provide_actuation st p (Api.sig_ids l ++ ids) = (st', inl h).
+Proof. exact Proofs.Api.v2_provide_is_core. Qed.
+Print Assumptions c09_stream_claim_is_core.
+
+Theorem c09_stream_claim_refused_no_effect : forall st p l st' c,
+  Api.v2_provide st p l = (st', inr c) -> st' = st.
+Proof. exact Proofs.Api.v2_provide_refused_no_effect. Qed.
+Print Assumptions c09_stream_claim_refused_no_effect.
+
+(* values a provider publishes through its stream are the core update of exactly those datapoints *)
+Theorem c09_stream_publish_is_core : forall st p l,
+  fst (Api.v2_stream_publish st p l) = fst (update_entries st p (Api.stream_updates l)) /\
+  map fst (snd (Api.v2_stream_publish st p l)) = map fst (snd (update_entries st p (Api.stream_updates l))).
+Proof. exact Proofs.Api.v2_stream_publish_is_core. Qed.
+Print Assumptions c09_stream_publish_is_core.
